@@ -87,6 +87,23 @@ def _key_filters(fi):
     return out
 
 
+def _copy_class(fn, seed):
+    """Local names joined to `seed` by plain name-to-name copies (`a = b`), in either direction."""
+    pairs = []
+    for n in walk_own(fn):
+        if isinstance(n, ast.Assign) and len(n.targets) == 1 and isinstance(n.targets[0], ast.Name) and isinstance(n.value, ast.Name):
+            pairs.append((n.targets[0].id, n.value.id))
+    names = {seed}
+    changed = True
+    while changed:
+        changed = False
+        for a, b in pairs:
+            if (a in names) != (b in names):
+                names.update((a, b))
+                changed = True
+    return names
+
+
 def d1_pipeline(ctx, idx):
     r = ctx.rule('D1.PIPELINE', 'every return of __call__ passes key filter -> [attempt credit] -> [debug append] -> format_messages', floor=6)
     with r:
@@ -100,6 +117,9 @@ def d1_pipeline(ctx, idx):
         if not (isinstance(cst, ast.Assign) and isinstance(cst.targets[0], ast.Name)):
             raise AnalysisError('the result of self.check(...) is not bound to a local name')
         res = cst.targets[0].id
+        # names that denote the grading result: closed under plain copies `a = b` in either direction (after a helper was
+        # inlined the checked result and the returned name are two locals joined by such a copy)
+        resnames = _copy_class(fi.node, res)
         starts = [t for n in chk_nodes for t, lab in n.succs if lab != 'exc']
         filters = _key_filters(fi)
         good = []
@@ -168,15 +188,15 @@ def d1_pipeline(ctx, idx):
                 if test is not None:
                     in_body = any(lp is s_ or lp in ast.walk(s_) for s_ in test.body)
                     in_else = any(lp is s_ or lp in ast.walk(s_) for s_ in test.orelse)
-                    pos = (in_body and nf.match("'input_list' in %s" % res, test.test) is not None) or \
-                          (in_else and nf.match("'input_list' not in %s" % res, test.test) is not None)
+                    pos = any((in_body and nf.match("'input_list' in %s" % rn, test.test) is not None) or
+                              (in_else and nf.match("'input_list' not in %s" % rn, test.test) is not None) for rn in sorted(resnames))
                 if pos:
                     r.ok('AbstractGrader.__call__: list-form selection', "selected by 'input_list' in result", lib.loc(fi, lp))
                 else:
                     r.undecided('AbstractGrader.__call__: list-form selection', 'selection of the list form not recognised', lib.loc(fi, lp))
             else:
-                rebinding = isinstance(st, ast.Assign) and any(isinstance(t, ast.Name) and t.id == res for t in st.targets)
-                r.check(rebinding and unparse(src) == res, 'AbstractGrader.__call__: single-form filter', 'result rebound to the filtered copy',
+                rebinding = isinstance(st, ast.Assign) and any(isinstance(t, ast.Name) and t.id in resnames for t in st.targets)
+                r.check(rebinding and unparse(src) in resnames, 'AbstractGrader.__call__: single-form filter', 'result rebound to the filtered copy',
                         'the filtered copy is not what is returned (`%s`)' % short(st), lib.loc(fi, st))
         # format_messages post-dominates
         fm = lib.calls_named(fi.node, 'format_messages')
@@ -191,9 +211,9 @@ def d1_pipeline(ctx, idx):
             if fnodes:
                 r.check(not cfg.reaches(fmn, fnodes), 'AbstractGrader.__call__: order filter < format_messages', 'filter first',
                         'the key filter runs after format_messages', lib.loc(fi, fm[0]))
-            arg_ok = fm[0].args and isinstance(fm[0].args[0], ast.Name) and fm[0].args[0].id == res
+            arg_ok = fm[0].args and isinstance(fm[0].args[0], ast.Name) and fm[0].args[0].id in resnames
             rets = lib.returns_of(fi.node)
-            ret_ok = all(isinstance(x.value, ast.Name) and x.value.id == res for x in rets)
+            ret_ok = all(isinstance(x.value, ast.Name) and x.value.id in resnames for x in rets)
             r.check(arg_ok and ret_ok, 'AbstractGrader.__call__: returned object', 'the formatted result is what is returned',
                     'format_messages is applied to `%s` but `%s` is returned' % (short(fm[0]), short(rets[0]) if rets else '?'), lib.loc(fi, fm[0]))
         fmt = idx.func(AG + '.format_messages')
@@ -202,11 +222,27 @@ def d1_pipeline(ctx, idx):
             if isinstance(n, ast.Assign) and isinstance(n.targets[0], ast.Subscript):
                 k = lib.subscript_key(n.targets[0])
                 stores[k] = n
+        stores_computed = any(isinstance(n, ast.Assign) and isinstance(n.targets[0], ast.Subscript) and lib.subscript_key(n.targets[0]) is None
+                              for n in walk_own(fmt.node))
+        fmt_calls_unreviewed = False
+        for c in lib.calls_in(fmt.node) if hasattr(lib, 'calls_in') else [x for x in ast.walk(fmt.node) if isinstance(x, ast.Call)]:
+            try:
+                targets, _how = idx.resolve_call(fmt, c)
+            except Exception:
+                targets = []
+            if any(not isinstance(t, tuple) and t.qualname in set(getattr(idx, 'unreviewed', []) or []) for t in targets):
+                fmt_calls_unreviewed = True
         for k in ('msg', 'overall_message'):
             n = stores.get(k)
             good_ = n is not None and isinstance(n.value, ast.Call) and nf.callee_name(n.value) == 'replace' and \
                 any(isinstance(c, ast.Call) and nf.callee_name(c) == 'get' and c.args and nf.const_value(c.args[0]) == k
                     and len(c.args) > 1 and nf.const_value(c.args[1], None) == '' for c in ast.walk(n.value))
+            if n is None and (stores_computed or fmt_calls_unreviewed):
+                # the store is written through a computed key / by a helper this rule cannot read: absence of the literal
+                # store is not a removal
+                r.undecided("format_messages: %s" % k, 'no store with the literal key %r; format_messages stores through %s'
+                            % (k, 'computed keys' if stores_computed else 'an unreviewed helper'), fmt.loc)
+                continue
             r.check(good_, "format_messages: %s" % k, "set from .get(%r, '') so the key always exists as a string" % k,
                     "format_messages no longer guarantees %r (found `%s`)" % (k, short(n) if n is not None else 'no store'), fmt.loc)
         # attempt credit: control-dependent on the option, after filter, before format
@@ -997,7 +1033,26 @@ _SCALE_HELPER = "    @staticmethod\n    def scale_by_answer_credit(results, answ
 _SCALE_CALL = "        results = self.scale_by_answer_credit(results, answer['grade_decimal'])\n"
 _RAW_CHECK_DEF = "    def raw_check(self, answer, student_input, **kwargs):\n"
 
+# ---- key filter moved into a helper with an early return, guarded check moved into a helper with the try (seen through by the normaliser)
+_FILTER_OLD = ("        keys = ['ok', 'grade_decimal', 'msg']\n        if 'input_list' in result:\n            # Multiple inputs\n"
+               "            for idx, entry in enumerate(result['input_list']):\n"
+               "                cleaned = {key: val for key, val in entry.items() if key in keys}\n"
+               "                result['input_list'][idx] = cleaned\n        else:\n            # Single input\n"
+               "            result = {key: val for key, val in result.items() if key in keys}\n")
+_FILTER_CALL = "        result = self._strip_result(result)\n"
+_APPLY_DEF = "    def apply_attempt_based_credit(self, result, attempt_number):\n"
+_FILTER_HELPER = ("    @staticmethod\n    def _strip_result(result):\n        keys = ['ok', 'grade_decimal', 'msg']\n"
+                  "        if 'input_list' not in result:\n            # Single input\n            return %s\n"
+                  "        # Multiple inputs\n        for idx, entry in enumerate(result['input_list']):\n"
+                  "            cleaned = {key: val for key, val in entry.items() if key in keys}\n"
+                  "            result['input_list'][idx] = cleaned\n        return result\n\n")
+_FILTERED = "{key: val for key, val in result.items() if key in keys}"
+
 MUTANTS = [
+    Mutant('key-filter-helper-single-form-unfiltered', BASE,
+           [(_FILTER_OLD, _FILTER_CALL), (_APPLY_DEF, (_FILTER_HELPER % "{key: val for key, val in result.items()}") + _APPLY_DEF)], None, 'D1'),
+    Mutant('key-filter-helper-keeps-extra-key', BASE,
+           [(_FILTER_OLD, _FILTER_CALL), (_APPLY_DEF, (_FILTER_HELPER % _FILTERED).replace("keys = ['ok', 'grade_decimal', 'msg']", "keys = ['ok', 'grade_decimal', 'msg', 'all_awarded']") + _APPLY_DEF)], None, 'D1'),
     Mutant('scaling-helper-derives-ok-from-unscaled-grade (seed C01i)', _FG,
            [(_SCALE_LOOP, _SCALE_CALL), (_RAW_CHECK_DEF, (_SCALE_HELPER % "result['grade_decimal']") + _RAW_CHECK_DEF)], None, 'D3'),
     Mutant('ok-map-returns-comparison (seed C05g)', BASE, "        return {0: False, 1: True}.get(grade, 'partial')",
@@ -1044,6 +1099,8 @@ MUTANTS = [
 ]
 
 BENIGN = [
+    Benign('key-filter-moved-to-helper-with-early-return', BASE,
+           [(_FILTER_OLD, _FILTER_CALL), (_APPLY_DEF, (_FILTER_HELPER % _FILTERED) + _APPLY_DEF)], None),
     Benign('scaling-helper-with-fresh-results', _FG,
            [(_SCALE_LOOP, _SCALE_CALL), (_RAW_CHECK_DEF, (_SCALE_HELPER % "grade_decimal") + _RAW_CHECK_DEF)], None),
     Benign('ok-map-if-chain-with-bool', BASE, "        return {0: False, 1: True}.get(grade, 'partial')",
